@@ -211,7 +211,7 @@ def search(seed=0, N=300):
 
 if __name__ == "__main__":
     seed = int(os.environ.get("VERIF_SEED", "0") or 0)
-    n, bad = search(seed, 300 if "--thorough" not in sys.argv else 5000)
+    n, bad = search(seed, 300 if "--thorough" not in sys.argv else 100000)
     out = {"status": "ok" if bad is None else "violation", "bound": "all port-type pairs (exhaustive); seeded random diagrams 1..6 modules x 0..3 ports, wires incl. cycles/fan-in/doubly-sourced ports, 5 handler modes; exhaustive: <=3 one-port modules x every wire subset (<=3 wires for 3 modules) x declaration order x external-input subset", "cases": n}
     if bad:
         out["detail"] = bad
